@@ -231,3 +231,42 @@ def size(e):
     if t == "a":
         return 1 + sum(size(x) for x in e[1])
     return 1
+
+
+# ------------------------------------------------------------------ priority chains
+CHAIN_PRIOS = ["d", "x", ("p", 1, 1), ("p", -1, 2), "F"]
+CHAIN_VALUES = [None, ("n", 1, 1), ("n", 2, 1), ("r", [(1, "x", 0, 0, [], ("n", 1, 1))])]
+
+
+def chain_operand(code):
+    """operand number `code` of the single-field universe: {} or {a | prio [| optional] [| not_exported] [= value]}"""
+    if code == 0:
+        return ("r", [])
+    code -= 1
+    v = CHAIN_VALUES[code % len(CHAIN_VALUES)]
+    code //= len(CHAIN_VALUES)
+    p = CHAIN_PRIOS[code % len(CHAIN_PRIOS)]
+    code //= len(CHAIN_PRIOS)
+    flags = code % 3
+    return ("r", [(0, p, int(flags == 1), int(flags == 2), [], v)])
+
+
+N_CHAIN_OPERANDS = 1 + len(CHAIN_VALUES) * len(CHAIN_PRIOS) * 3
+
+
+def gen_chain_triple(rng):
+    """three operands defining (or not) the SAME field with every combination of priority annotation, presence of
+    a value, optional / not_exported: the cases where bracketing and operand order could matter (a priority
+    annotation on a field without value, a value overridden twice, ...)"""
+    def pick():
+        # flags rarely, so that most triples are about priorities and values
+        c = rng.below(1 + len(CHAIN_VALUES) * len(CHAIN_PRIOS))
+        if c and rng.chance(1, 6):
+            c += len(CHAIN_VALUES) * len(CHAIN_PRIOS) * rng.range(1, 2)
+        return chain_operand(c)
+    return pick(), pick(), pick()
+
+
+def all_chain_triples(flags=False):
+    n = N_CHAIN_OPERANDS if flags else 1 + len(CHAIN_VALUES) * len(CHAIN_PRIOS)
+    return [(chain_operand(i), chain_operand(j), chain_operand(k)) for i in range(n) for j in range(n) for k in range(n)]
